@@ -145,6 +145,150 @@ def explore(prefix, depth):
     return res
 
 
+
+# ---------------------------------------------------------------------------------------------
+# part B: SynchronizedClock — chains of interpreters following each other
+#
+# L runs on a SimulatedClock that the explorer sets; F's clock follows L, G's clock follows F, a
+# property statechart P is bound to F (its clock follows F), and three free-standing observer
+# clocks follow L, F and G.  "The time of the last step of the interpreter it follows" is kept by
+# the reference as one number per interpreter: the value its own clock showed when its latest
+# execute_once call started.
+SYNC_OPS = [('adv', 1), ('adv', 2), ('step', 'L'), ('step', 'F'), ('step', 'G'), ('qstep', 'L'),
+            ('qstep', 'F'), ('qstep', 'G')]
+SYNC_DEPTH = {'quick': 8, 'thorough': 10}
+
+_SYNC_CHART = None
+
+
+def _sync_chart():
+    global _SYNC_CHART
+    if _SYNC_CHART is None:
+        from sismic.model import Statechart, CompoundState, BasicState, Transition
+        sc = Statechart('sync')
+        sc.add_state(CompoundState('root', initial='a'), None)
+        sc.add_state(BasicState('a'), 'root')
+        sc.add_state(BasicState('b'), 'root')
+        sc.add_transition(Transition('a', 'b', event='e'))
+        sc.add_transition(Transition('b', 'a', event='e'))
+        prop = Statechart('prop')
+        prop.add_state(CompoundState('root', initial='w'), None)
+        prop.add_state(BasicState('w'), 'root')
+        prop.add_transition(Transition('w', None, event='step started'))
+        _SYNC_CHART = (sc, prop)
+    return _SYNC_CHART
+
+
+class SyncSystem:
+    def __init__(self):
+        from sismic.interpreter import Interpreter
+        sc, prop = _sync_chart()
+        self.base = SimulatedClock()
+        self.L = Interpreter(sc, clock=self.base)
+        self.F = Interpreter(sc, clock=SynchronizedClock(self.L))
+        self.G = Interpreter(sc, clock=SynchronizedClock(self.F))
+        self.P = []
+        self.F.bind_property_statechart(prop, interpreter_klass=self._klass)
+        self.obs = {k: SynchronizedClock(getattr(self, k)) for k in 'LFG'}
+        self.ref = {'base': 0, 'L': 0, 'F': 0, 'G': 0, 'P': 0}
+
+    def _klass(self, statechart, clock):
+        from sismic.interpreter import Interpreter
+        it = Interpreter(statechart, clock=clock)
+        self.P.append(it)
+        return it
+
+    def apply(self, op):
+        """-> list of discrepancies"""
+        errs = []
+        if op[0] == 'adv':
+            self.ref['base'] += op[1]
+            self.base.time = self.ref['base']
+        else:
+            who = op[1]
+            it = getattr(self, who)
+            # the follower samples the time of the last step of the interpreter it follows
+            src = {'L': 'base', 'F': 'L', 'G': 'F'}[who]
+            self.ref[who] = self.ref[src]
+            if who == 'F':
+                self.ref['P'] = self.ref['F']     # the property statechart runs on F's meta-events
+            if op[0] == 'qstep':
+                it.queue('e')
+            step = it.execute_once()
+            if step is not None and step.time != self.ref[who]:
+                errs.append('MacroStep of %s carries time %s, its clock showed %s' % (who, step.time, self.ref[who]))
+        return errs + self.check()
+
+    def check(self):
+        errs = []
+        for who in 'LFG':
+            it = getattr(self, who)
+            if it.time != self.ref[who]:
+                errs.append('Interpreter.time of %s is %s, its last step was at %s' % (who, it.time, self.ref[who]))
+            if self.obs[who].time != self.ref[who]:
+                errs.append('SynchronizedClock on %s shows %s, the last step of %s was at %s'
+                            % (who, self.obs[who].time, who, self.ref[who]))
+        if self.F.clock.time != self.ref['L']:
+            errs.append('clock of F (follows L) shows %s, last step of L was at %s' % (self.F.clock.time, self.ref['L']))
+        if self.G.clock.time != self.ref['F']:
+            errs.append('clock of G (follows F) shows %s, last step of F was at %s' % (self.G.clock.time, self.ref['F']))
+        for p in self.P:
+            if p.clock.time != self.ref['F']:
+                errs.append('clock of the property statechart bound to F shows %s, last step of F was at %s'
+                            % (p.clock.time, self.ref['F']))
+            if p.time != self.ref['P']:
+                errs.append('property statechart bound to F last ran at %s, F at %s' % (p.time, self.ref['P']))
+        if len(self.P) != 1:
+            errs.append('%d property interpreters were created' % len(self.P))
+        return errs
+
+    def key(self):
+        r = self.ref
+        return (r['base'] - r['L'], r['L'] - r['F'], r['F'] - r['G'],
+                tuple(sorted(getattr(self, k).configuration[-1] for k in 'LFG')), r['base'] > 0)
+
+
+def sync_build(hist):
+    s = SyncSystem()
+    for k in 'LFG':       # initial steps: everything starts at 0
+        getattr(s, k).execute_once()
+    for op in hist:
+        s.apply(op)
+    return s
+
+
+def explore_sync(depth):
+    res = {'states': 0, 'transitions': 0, 'outcomes': collections.Counter(), 'violations': [],
+           'nviol': 0, 'max_depth': 0}
+    s = sync_build(())
+    for e in s.check():
+        res['nviol'] += 1
+        res['violations'].append({'hist': [], 'op': ['init'], 'detail': e, 'part': 'sync'})
+    seen = {s.key()}
+    frontier = collections.deque([()])
+    while frontier:
+        hist = frontier.popleft()
+        res['max_depth'] = max(res['max_depth'], len(hist))
+        if len(hist) >= depth:
+            continue
+        for op in SYNC_OPS:
+            s = sync_build(hist)
+            errs = s.apply(op)
+            res['transitions'] += 1
+            res['outcomes']['sync:' + op[0]] += 1
+            for e in errs:
+                res['nviol'] += 1
+                if len(res['violations']) < 10:
+                    res['violations'].append({'hist': [list(map(str, o)) for o in hist],
+                                              'op': list(map(str, op)), 'detail': e, 'part': 'sync'})
+            k = s.key()
+            if not errs and k not in seen:
+                seen.add(k)
+                frontier.append(hist + (op,))
+    res['states'] = len(seen)
+    return res
+
+
 def work(task):
     prefix, depth = task
     return explore(prefix, depth)
@@ -156,6 +300,11 @@ def run(tier, seed):
     # fan out on the first two operations; states are deduplicated within each subtree
     tasks = [((a, b), depth) for a in OPS for b in OPS]
     results = [explore((), 2)] + harness.pmap(work, tasks, chunksize=2)
+    clockmod.time = _time.time      # part B reads no real time, but SimulatedClock() samples it once
+    sync = explore_sync(SYNC_DEPTH[tier])
+    clockmod.time = lambda: REAL[0]
+    sync['values'] = 0
+    results.append(sync)
     agg = harness.Agg()
     viols = []
     nvalues = 0
@@ -174,6 +323,11 @@ def run(tier, seed):
         'outcomes': dict(agg.outcomes), 'distinct_clock_values_in_one_subtree': nvalues,
         'samples': [{'sequence': [list(map(str, o)) for o in harness.pick_samples(OPS, seed + i, depth)]}
                     for i in range(2)],
+        'synchronized': {'depth': SYNC_DEPTH[tier], 'states': sync['states'], 'transitions': sync['transitions'],
+                         'alphabet': [list(map(str, o)) for o in SYNC_OPS],
+                         'rule': 'chain L <- F <- G of interpreters whose clocks follow each other, a property '
+                                 'statechart bound to F, three observer clocks; after every op every synchronized '
+                                 'clock is compared with the time of the last step of the interpreter it follows'},
         'rule': 'every sequence of {start, stop, speed:=0|1/2|1|2, time:=now+0|+1|-1, real time += 1|3} '
                 'up to the depth from a fresh SimulatedClock; states merged only on identical concrete '
                 'implementation state + real time + reference state; value, exception, monotonicity and '
@@ -182,10 +336,18 @@ def run(tier, seed):
     return harness.finish('C14', tier, seed, 'model_checking', cov, viols, [
         'real time does not advance inside one clock operation',
         'the clock reads time only through sismic.clock.clock.time (scripted)',
-        'SynchronizedClock == Interpreter.time is checked in C13\'s exploration'], t0)
+        'SynchronizedClock == Interpreter.time is also checked at every state of C13\'s exploration'], t0)
 
 
 def replay(data):
+    if data.get('part') == 'sync':
+        clockmod.time = _time.time
+        conv = lambda o: (o[0], int(o[1])) if o[0] == 'adv' else tuple(o)
+        sysm = sync_build(())
+        for o in [conv(o) for o in data['hist']] + ([conv(data['op'])] if data['op'][0] != 'init' else []):
+            print(o, '->', sysm.apply(o) or 'ok', ' reference', sysm.ref)
+        print('recorded:', data['detail'])
+        return 0
     hist = [tuple(o) for o in data['hist']] + [tuple(data['op'])]
     REAL[0] = 0
     clk = SimulatedClock()
